@@ -66,7 +66,7 @@ def check_scenario(sc, impl):
                        "goroutines": (impl.get("goroutines") or "")[:3000]}
     res = impl["results"]
     nsetup, nobs = len(sc.get("setup", [])), len(sc.get("observe", []))
-    by_thread = {r["thread"]: r["result"] for r in res if "thread" in r and not r["result"].startswith("await-timeout")}
+    by_thread = {r["thread"]: r["result"] for r in res if "thread" in r and not r["result"].startswith(("await-timeout", "not-parked"))}
     timeouts = [r for r in res if r.get("result", "").startswith("await-timeout")]
     if timeouts:
         return False, {"why": "a thread never reached its park point (machinery or changed code shape)", "results": res}
@@ -137,6 +137,11 @@ SCENARIOS = {
         dict(name="subdoc-insert-vs-removal-of-that-property", setup=kv_setup(), threads={"A": "sdi c0 k path=b cas=0 v=7"},
              script=[{"do": "park", "thread": "A", "point": "subdoc.afterread"}, {"do": "spawn", "thread": "A", "line": "sdi c0 k path=b cas=0 v=7"},
                      {"do": "await", "thread": "A", "point": "subdoc.afterread"}, {"do": "run", "line": "wsd c0 k path=b cas=0 v="},
+                     {"do": "release", "thread": "A"}, {"do": "join", "thread": "A"}],
+             observe=["rb c0 k " + N]),
+        dict(name="subdoc-insert-vs-set-of-that-property", setup=kv_setup(), threads={"A": "sdi c0 k path=c cas=0 v=7"},
+             script=[{"do": "park", "thread": "A", "point": "subdoc.afterread"}, {"do": "spawn", "thread": "A", "line": "sdi c0 k path=c cas=0 v=7"},
+                     {"do": "await", "thread": "A", "point": "subdoc.afterread"}, {"do": "run", "line": "wsd c0 k path=c cas=0 v=9"},
                      {"do": "release", "thread": "A"}, {"do": "join", "thread": "A"}],
              observe=["rb c0 k " + N]),
         dict(name="incr-vs-incr", setup=["clock t=2097152", "set c0 n exp=0 raw=0 v=10", "clock t=3145728"],
